@@ -1,6 +1,6 @@
 # Human-written metadata per check for MANIFEST.json.
 ENGINES = [
-    {"name": "seqx", "path": "/verif/kit (bfs.go) + /verif/checks/*", "serves_properties": ["C02", "C03", "C11", "C12", "C17", "C19"],
+    {"name": "seqx", "path": "/verif/kit (bfs.go) + /verif/checks/*", "serves_properties": ["C01", "C02", "C03", "C11", "C12", "C17", "C19"],
      "kind_free_text": "sequential bounded-exhaustive / explicit-state explorer over the real objects (fresh object + replay per path, canonical state hash)"},
 ]
 
@@ -8,6 +8,13 @@ PENDING = "harness not built yet in this session (planned in DESIGN.md; will be 
 NOT_APPLICABLE = [{"property_id": "C%02d" % i, "reason": PENDING} for i in range(1, 21)]
 
 META = {
+    "C01": {
+        "engine": "seqx+meshx",
+        "technique": "bounded exhaustive deviation enumeration (singles, pairs, self-consistent forgeries) at every entry point of the real code vs reference predicate",
+        "design_ref": "DESIGN.md §2 C01",
+        "text": "A valid identity, every single field deviation (all 128 address bits, foreign/invalid addresses, all 14 other known and 4 unknown hash names, 5 key-type names, all 256 key bits, odd key sizes, easing values) and ~50 self-consistent forgeries (address recomputed to be the digest of a malformed identity) are presented at all six entry points: VerifyAddress, AddressFromStorage (plus 7 private-key corruptions), AddressFromKeyPair, a first-contact ping header handled by a real router, a peering request on a real link setup (synctest bubble, adversary-owned connection) and a gossip hop record; all pairs of deviations at the pure entry points; bad->good and good->bad presentation sequences on one long-lived router; the generator over all satisfiable subsets of a 5-prefix acceptable x 4-prefix ignore alphabet x two easing limits. Verdicts are compared with an independently computed reference predicate; rejection must leave no session or stored record and no panic anywhere.",
+        "note": "Digest primitives of crop are trusted; key material space is sampled by construction (one to three base identities), the deviation space around it is exhaustive; network entry points observe acceptance as 'a record for the presented address exists afterwards'.",
+    },
     "C17": {
         "engine": "seqx",
         "technique": "depth-bounded exhaustive operation sequences on a shared real frame builder vs byte-level shadow model (deterministic pools)",
